@@ -216,6 +216,40 @@ def plumbing(fb, rep):
     takers = {f.u: ipar(f) for f in fb.funcs.values() if ipar(f) is not None and f.name.startswith('soplex::')}
     if len(takers) < 5:
         raise AnalysisBroken('only %d functions take an interrupt pointer' % len(takers))
+    # functions reachable from the public optimize(interrupt)
+    entry = [f for f in fb.methods_of('soplex::SoPlexBase<double>') if f.short == 'optimize' and ipar(f) is not None]
+    if len(entry) != 1:
+        raise AnalysisBroken('SoPlexBase::optimize(volatile bool*) not found')
+    reach_opt = set()
+    work = [entry[0]]
+    while work:
+        g = work.pop()
+        if g.u in reach_opt:
+            continue
+        reach_opt.add(g.u)
+        for c in g.calls():
+            h = fb.funcs.get(c.u)
+            if h is not None and h.cls == 'soplex::SoPlexBase<double>':
+                work.append(h)
+    reach_unused = {}
+    for g0 in fb.methods_of('soplex::SoPlexBase<double>'):
+        ip = ipar(g0)
+        if ip is None or not g0.nodes or g0.u not in reach_opt:
+            continue
+        if any(n.k == 'DeclRefExpr' and n.dk == 'parm' and n.n == ip[1] for n in g0.nodes):
+            continue
+        work = [g0]
+        seen = set()
+        while work:
+            g = work.pop()
+            if g.u in seen:
+                continue
+            seen.add(g.u)
+            reach_unused.setdefault(g.u, g0.short)
+            for c in g.calls():
+                h = fb.funcs.get(c.u)
+                if h is not None and h.cls == 'soplex::SoPlexBase<double>' and ipar(h) is None:
+                    work.append(h)
     for f in fb.funcs.values():
         if not f.name.startswith('soplex::') or 'mpfr' in f.name:
             continue
@@ -230,6 +264,13 @@ def plumbing(fb, rep):
                 wh = '%s:%d' % (f.file, c.l)
                 if mine is not None:
                     rep.check(at == mine[1], 'R16.5', key, wh, 'forwards ' + at, '%s is called with %s although the caller has the interrupt pointer `%s`: a raised flag is ignored in this solve' % (c.short, at, mine[1]))
+                elif f.u in reach_unused:
+                    rep.check(at not in ('default(nullptr)', 'nullptr', '0'), 'R16.5', key + '|dropped', wh, 'passes ' + at,
+                              '%s is reached from %s, which takes the interrupt pointer and never forwards it, and starts %s(%s): a flag raised before or during this solve is never seen' % (key.split('|')[0], reach_unused[f.u], c.short, at))
                 else:
                     rep.not_decided.append('R16.5: %s calls %s(%s) and has no interrupt parameter to forward' % (key.split('|')[0], c.short, at))
+        if mine is not None and f.nodes and f.cls == 'soplex::SoPlexBase<double>':
+            used = any(n.k == 'DeclRefExpr' and n.dk == 'parm' and n.n == mine[1] for n in f.nodes)
+            rep.check(used, 'R16.5', '%s|uses-its-interrupt-parameter' % f.short, f.where(), 'the interrupt parameter is read or forwarded',
+                      '%s takes the interrupt pointer `%s` and never reads or forwards it: every solve started below it ignores a raised flag' % (f.short, mine[1]))
     rep.not_decided[:] = sorted(set(rep.not_decided))
